@@ -111,6 +111,17 @@ def _wrapper_reads(ctx, itf, arf):
             keys.add(n.slice.value)
         if isinstance(n, ast.Call) and isinstance(n.func, ast.Attribute) and n.func.attr == "get" and isinstance(n.func.value, ast.Name) and n.func.value.id == spec_var and n.args and isinstance(n.args[0], ast.Constant):
             keys.add(n.args[0].value)
+    # `f(**spec)` / `f(x=spec.pop(..), **spec)`: every parameter of the module-level callee is a key read from the spec
+    for n in ast.walk(arf):
+        if isinstance(n, ast.Call) and any(kw.arg is None and isinstance(kw.value, ast.Name) and kw.value.id == spec_var for kw in n.keywords) and isinstance(n.func, ast.Name) and n.func.id in itf.functions:
+            callee = itf.functions[n.func.id]
+            keys |= {a.arg for a in callee.args.args + callee.args.kwonlyargs}
+    muts = [n for n in ast.walk(arf) if isinstance(n, ast.Call) and isinstance(n.func, ast.Attribute) and n.func.attr in ("pop", "popitem", "clear", "update", "setdefault") and isinstance(n.func.value, ast.Name) and n.func.value.id == spec_var]
+    muts += [n for n in ast.walk(arf) if isinstance(n, (ast.Assign, ast.AugAssign, ast.Delete)) and any(isinstance(t, ast.Subscript) and isinstance(t.value, ast.Name) and t.value.id == spec_var for t in (n.targets if isinstance(n, (ast.Assign, ast.Delete)) else [n.target]))]
+    ctx.rule("RO", "setting up the rounding reads the caller's spec and never changes it (no pop / del / item assignment on params[key]['rounding'][name]): the second simulation with the same parameters rounds like the first")
+    ctx.ob("RO", ok=not muts, distinct="spec")
+    for n in muts:
+        ctx.violation("RO", f"_add_rounding_to_functions|{ast.unparse(n)[:60]}", itf.loc(n) + " _add_rounding_to_functions", f"`{ast.unparse(n)[:80]}` changes the rounding spec inside the caller's parameters: later simulations with the same parameters lose / change the setting")
     if not {"base", "direction"} <= keys:
         raise AnalysisError(f"_add_rounding_to_functions reads {sorted(keys)} from the spec; expected at least base and direction")
     return keys, spec_var
@@ -135,7 +146,10 @@ def key_agreement(ctx, s, wrap_keys):
                     if k in DOC_KEYS:
                         continue
                     if k not in wrap_keys:
-                        ctx.info(f"{g}.rounding.{name}@{d}: key {k!r} is read by nobody")
+                        # a key nobody reads is silently ignored: a misspelt statutory key looks exactly like this
+                        ctx.ob("RW", ok=False, distinct=(g, name, str(d), k))
+                        ctx.violation("RW", f"{g}.rounding.{name}|unknown key {k}", f"src/_gettsim/parameters/{g}.yaml rounding.{name}",
+                                      f"{g}.rounding.{name}@{d} has the key `{k}`, which neither the loader transfers nor the wrapper reads (known: {sorted(wrap_keys)} and the documentation keys {sorted(DOC_KEYS)}): the value {entry[k]!r} is silently ignored - a misspelt key drops the statutory setting")
                         continue
                     ok = transferred is None or k in transferred
                     ctx.ob("RW", ok=ok, distinct=(g, name, str(d), k))
